@@ -21,7 +21,7 @@ from hypothesis import strategies as st
 import linear_operator
 from lov import exc as X
 from lov import gen, lit as L, recipe as R, refmodel, state, tol
-from lov.core import HarnessError, Violation
+from lov.core import HarnessError, Violation, sha
 from lov.findings import load as load_findings
 
 ID = "C05"
@@ -38,14 +38,14 @@ RULE = (
     "max_lanczos_quadrature_iterations n/n+2, skip_logdet_forward, min_preconditioning_size / max_preconditioner_size, "
     "cg_tolerance, max_cg_iterations >= n+1, deterministic_probes}. Non-trivial: stochastic path taken (autograd node found), "
     "or closed-form override head with non-empty batch or reduce=False. Distinct by (class path, entry, path, rhs kind, flags, "
-    "settings cell, batch shape)."
+    "settings cell, batch shape, values)."
 )
-BUDGET = {"quick": 600, "thorough": 2000}
+BUDGET = {"quick": 2500, "thorough": 4000}
 ASSUMPTIONS = [
     "inv_quad_logdet is only called with rhs batch == operator batch and a 1-D rhs only against non-batched operators "
     "(every implementation raises RuntimeError otherwise, explicitly)",
-    "max_cg_iterations >= max(n + 1, max_lanczos_quadrature_iterations): with fewer CG iterations the tridiagonal matrix is "
-    "smaller than the Krylov space and the quadrature is not claimed to be exact",
+    "max_cg_iterations >= max(n, max_lanczos_quadrature_iterations) (linear_cg rejects max_tridiag_iter > max_iter): with fewer "
+    "CG iterations than n the tridiagonal matrix is smaller than the Krylov space and exactness is not claimed",
     "MulLinearOperator is only generated with the default max_cholesky_size (its very matrix is defined through root "
     "decompositions, Lanczos-based above the threshold: C01/C06 business)",
     "a term that was not asked for must be None (documentation: 'or None') or an empty tensor (return annotation; what the "
@@ -53,6 +53,8 @@ ASSUMPTIONS = [
     "paths that diagonalise factors through Lanczos (diagonalization() above max_cholesky_size, used by the Kronecker+diagonal "
     "solves) are approximate by construction and poisoned by the open C09 finding F-C09-diag-jitter: values not compared there",
     "with skip_logdet_forward the code returns log|P| (zero without preconditioner): asserted as such",
+    "deterministic_probes together with an active preconditioner is not generated while C09 findings are open (the probes are "
+    "then drawn through a Lanczos root decomposition of the preconditioner, which is C09's subject)",
 ]
 
 ENTRIES = ["logdet", "torch.logdet", "inv_quad", "inv_quad_logdet", "inv_quad_logdet", "inv_quad_logdet", "fn.inv_quad", "fn.inv_quad_logdet"]
@@ -65,7 +67,7 @@ C_LOGDET = 64.0
 C_SOLVE = 256.0
 C_CG = 1024.0
 C_SLQ = 4096.0
-CG_FREEZE = 1e-10  # linear_cg: stop_updating_after (relative residual at which a column is frozen)
+CG_EPS = 1e-10  # linear_cg: eps of the "safe division" (alpha := 0 when p^T A p < eps, rhs normalised): the iteration stalls
 TRIDIAG_CUT = 1e-6  # linear_cg: tridiagonalisation stops once every off-diagonal entry is below this
 
 
@@ -128,7 +130,7 @@ def _cat_pd(draw, dt):
 def _recipe(draw, tier, focus):
     ex = _exclusions()
     trig = _open_triggers()
-    max_depth = 3 if tier == "quick" else 4
+    max_depth = 3  # both tiers: deeper trees only add failures of the factors' own root / eigen decompositions (C02 / C06)
     if focus == "slq":
         # classes that reach the InvQuadLogdet function when n > max_cholesky_size: the generic ones, AddedDiag (with its
         # pivoted-Cholesky preconditioner), KroneckerAddedDiag's fall-back branch, and the delegating wrappers over them
@@ -196,7 +198,7 @@ def _rhs(draw, shape, dt, kind):
     return kind, gen.flit(draw, cfg, batch + (n, c), -16, 16)
 
 
-def _settings_cell(draw, n, has_mul, focus):
+def _settings_cell(draw, n, has_mul, focus, added_diag=False):
     cell = {}
     if focus == "slq" and not has_mul:
         cell["max_cholesky_size"] = 0
@@ -211,6 +213,8 @@ def _settings_cell(draw, n, has_mul, focus):
         cell["max_lanczos_quadrature_iterations"] = lq
     lqv = lq if lq is not None else 20
     mcg = draw(st.sampled_from([None, None, max(n + 1, lqv), lqv + 3, 20]))
+    if lq == n and "cg_budget_equals_lanczos_budget_equals_n" not in _open_triggers() and draw(st.integers(0, 7)) == 0:
+        mcg = n  # the smallest CG budget linear_cg accepts for n Lanczos steps (max_tridiag_iter <= max_iter)
     if mcg is not None:
         cell["max_cg_iterations"] = mcg
         cell["cg_tolerance"] = draw(st.sampled_from([1.0, 1e-2, 1e-12]))
@@ -218,14 +222,17 @@ def _settings_cell(draw, n, has_mul, focus):
         cell["cg_tolerance"] = 1e-2
     if draw(st.integers(0, 5)) == 0:
         cell["skip_logdet_forward"] = True
-    pre = draw(st.sampled_from(["default", "on", "on", "off"]))
+    pre = draw(st.sampled_from(["on", "on", "on", "on", "off", "default"] if added_diag else ["default", "on", "on", "off"]))
     if pre == "on":
         cell["min_preconditioning_size"] = draw(st.sampled_from([0, n]))
         cell["max_preconditioner_size"] = draw(st.sampled_from([1, 2, 15]))
     elif pre == "off":
         cell["min_preconditioning_size"] = 0
         cell["max_preconditioner_size"] = 0
-    if draw(st.integers(0, 11)) == 0:
+    # deterministic_probes (deprecated) draws its probes through precond_lt.root_decomposition(): Lanczos above
+    # max_cholesky_size, which fails on batches with members of different Krylov dimension (open C09 findings) - with an
+    # active preconditioner it is therefore only generated while no C09 finding is open
+    if draw(st.integers(0, 11)) == 0 and not (pre == "on" and any(e.get("property") == "C09" for e in _open_entries())):
         cell["deterministic_probes"] = True
     return cell
 
@@ -243,7 +250,7 @@ def cases(draw, tier):
     n = shape[-1]
     dt = R.dtype_of(r)
     has_mul = any(x["op"] == "Mul" for x in R.walk(r))
-    cell = _settings_cell(draw, n, has_mul, focus)
+    cell = _settings_cell(draw, n, has_mul, focus, added_diag=_effective(r)[0]["op"] == "AddedDiag")
     tri = r["op"] in ("Tri", "KroneckerTri")
     # every (entry, rhs kind, logdet flag) combination; those for which the trigger of an OPEN finding holds are removed
     options = [("logdet", None, True), ("torch.logdet", None, True)] * 2
@@ -400,6 +407,8 @@ def _slq_leaf(op, A, nodes, info):
     info["precond"] = P_op is not None
     info["kappa_M"] = max(info.get("kappa_M", 1.0), float((mu.max(-1).values / mu.min(-1).values).max()))
     info["kappa_P"] = max(info.get("kappa_P", 1.0), kp)
+    info["p_max"] = max(info.get("p_max", 0.0), 1.0 if P_op is None else float(p.max()))
+    info["lmin_leaf"] = min(info.get("lmin_leaf", float("inf")), float(torch.linalg.eigvalsh(_sym(A)).min()))
     info["logmax"] = max(info.get("logmax", 0.0), float(mu.log().abs().max()))
     info["mu_min"] = min(info.get("mu_min", float("inf")), float(mu.min()))
     info["skip_value"] = logdet_p
@@ -408,6 +417,49 @@ def _slq_leaf(op, A, nodes, info):
     info["cut"] = max(info.get("cut", 0.0), cut)
     info["n_leaf"] = n
     return logdet_p + (n / float(m)) * quad.sum(-1)
+
+
+def _cg_precond_info(op, A, info):
+    """Spectral data of the preconditioner the InvQuad function hands to CG (no autograd node to start from): the head's
+    own `_preconditioner()` under the settings in force (None for every class but AddedDiag)."""
+    try:
+        _, P_op, _ = op._preconditioner()
+    except Exception:
+        return
+    if P_op is None:
+        return
+    Pd = P_op.to_dense().detach().to(F64).expand(*A.shape)
+    p, V = torch.linalg.eigh(_sym(Pd))
+    if float(p.min()) <= 0:
+        return
+    Pm = (V * p.rsqrt().unsqueeze(-2)) @ V.transpose(-1, -2)
+    mu = torch.linalg.eigvalsh(_sym(Pm @ A @ Pm))
+    info["kappa_P"] = float((p.max(-1).values / p.min(-1).values).max())
+    info["kappa_M"] = float((mu.max(-1).values / mu.min(-1).values).max())
+    info["p_max"] = float(p.max())
+    info["mu_min"] = float(mu.min())
+    info["precond"] = True
+
+
+def _kappa_struct(r, kappa):
+    """Condition number that governs the closed-form solve actually used.  Woodbury (LowRankRootAddedDiag) and the
+    'pull the diagonal across' identities (KroneckerProductAddedDiag, SumKronecker) invert the diagonal / second summand
+    separately, so their forward error scales with ||A|| ||D^{-1}|| (resp. kappa(A) kappa(B2)), not with kappa(A) alone."""
+    e, _ = _effective(r)
+    try:
+        if e["op"] in ("LowRankRootAddedDiag", "KroneckerAddedDiag"):
+            Ae = refmodel.dense(e)
+            lmax_e = float(torch.linalg.eigvalsh(_sym(Ae)).abs().max())
+            d = [a for a in e["args"] if gen.is_diag_instance(a)]
+            if d:
+                dd = refmodel.dense(d[0]).diagonal(dim1=-2, dim2=-1)
+                return max(kappa, lmax_e / float(dd.min()), float((dd.max(-1).values / dd.min(-1).values).max()) * kappa)
+        if e["op"] == "SumKronecker":
+            w = torch.linalg.eigvalsh(_sym(refmodel.dense(e["args"][1])))
+            return kappa * float((w.max(-1).values / w.min(-1).values).max())
+    except Exception as exc:  # pragma: no cover
+        raise HarnessError("structural condition number failed: %r" % (exc,))
+    return kappa
 
 
 def _slq_expected(r, A, op, nodes, info):
@@ -516,16 +568,13 @@ def check(case):
     expected_slq = None
     nodes = []
     lines = []
+    raised = None
     with state.apply_settings(cell), state.linalg_log() as lines:
         try:
             iq, ld = _call(op, entry, rhs, reduce_, want_ld)
         except Exception as e:
-            algos = state.algorithms(lines)
-            seen["path"] = "slq" if "symeig" in algos and "cg" in algos else ("cg" if "cg" in algos else ("chol" if "cholesky" in algos else "closed"))
-            if X.is_declined(e, "logdet"):
-                return {"nontrivial": False, "key": "declined", "labels": ["declined", "declined:%s:%s" % (head, str(e)[:60])]}
-            fail("exc:" + X.describe(e), "raised %r" % (e,))
-        if want_ld and torch.is_tensor(ld):
+            raised = e
+        if raised is None and want_ld and torch.is_tensor(ld):
             nodes = _find_nodes(ld)
             if nodes:
                 try:
@@ -535,6 +584,19 @@ def check(case):
                 except Exception as e:
                     seen["path"] = "slq"
                     fail("exc_precond:" + X.describe(e), "re-reading the preconditioner raised %r" % (e,))
+        if raised is None and not nodes and rhs is not None:
+            _cg_precond_info(op, A, info)
+    if raised is not None:
+        algos = state.algorithms(lines)
+        seen["path"] = "slq" if ("symeig" in algos and "cg" in algos) else ("cg" if "cg" in algos else ("chol" if "cholesky" in algos else "closed"))
+        fr = X.innermost_lo_frame(raised)
+        if fr is not None and fr[0].replace("\\", "/") == "utils/lanczos.py" and any(e.get("property") == "C09" for e in _open_entries()):
+            # raised inside the Lanczos utilities (factor diagonalisation / root decomposition above max_cholesky_size) while
+            # C09 findings are open (break-down handling): C09's subject, counted, not a C05 verdict
+            return {"nontrivial": False, "key": "foreign_c09", "labels": ["foreign:c09_lanczos_exception", "head:" + head]}
+        if X.is_declined(raised, "logdet"):
+            return {"nontrivial": False, "key": "declined", "labels": ["declined", "declined:%s:%s" % (head, str(raised)[:60])]}
+        fail("exc:" + X.describe(raised), "raised %r" % (raised,))
     algos = state.algorithms(lines)
     if nodes:
         path = "slq"
@@ -603,23 +665,34 @@ def check(case):
     if want_iq:
         # direct solve: forward error |x^ - x| <= c n u kappa |x|  =>  |r^T(x^ - x)| <= c n u kappa |r||x|.
         # CG (attainable accuracy c k u kappa |x|, columns frozen at relative residual 1e-10 => |x^-x| <= 1e-10 kappa |x|).
+        # CG: rounding c k u kappa |x| (attainable accuracy), plus the stall of linear_cg's "safe division": a step with
+        # p^T A p < eps = 1e-10 (right-hand side normalised to 1) gets alpha = 0, i.e. the iteration stops improving there.
+        # For (preconditioned) CG started at 0 the quadratic form is b^T x_k = b^T x - |e_k|_A^2 (Galerkin), and at the stalled
+        # step r^T P^{-1} r <= |p|_P^2 <= lmax(P) p^T A p / lmin(A) < eps lmax(P) / lmin(A), hence
+        # |e_k|_A^2 = r^T A^{-1} r <= r^T P^{-1} r / mu_min < eps lmax(P) / (lmin(A) mu_min)   (times |b|^2; P = I: eps / lmin^2).
         cg_ran = "cg" in algos
+        kappa_s = _kappa_struct(r, kappa)
+        stall = 0.0
         if cg_ran:
-            kap = max(kappa, info.get("kappa_P", 1.0), info.get("kappa_M", 1.0))
-            rel = (C_CG * n * u + CG_FREEZE) * kap
+            kap = max(kappa_s, info.get("kappa_P", 1.0), info.get("kappa_M", 1.0))
+            rel = C_CG * n * u * kap
+            lmin_cg = min(lmin, info.get("lmin_leaf", lmin))
+            stall = 4.0 * CG_EPS * info.get("p_max", 1.0) / (lmin_cg * min(1.0, info.get("mu_min", lmin_cg) if info.get("precond") else lmin_cg))
         else:
-            rel = C_SOLVE * n * u * kappa
+            rel = C_SOLVE * n * u * kappa_s
         rel = rel * (8.0 if has_mul else 1.0) + jit
         if "lanczos" in algos:
             # (also on the SLQ path: probes drawn / preconditioner built through a Lanczos root do not matter, but an
             #  inv_quad computed through Lanczos-diagonalised factors does)
             if "iq" not in vacuous and not cg_ran:
                 vacuous.append("iq")
-        if rel > 0.05 or "iq" in vacuous or "lanczos_diag" in vacuous:
+        b2 = Rm.norm(dim=-2).pow(2)
+        b2 = b2.sum(-1) if reduce_ else b2
+        if rel > 0.05 or float((stall * b2 / scale.clamp_min(tol.TINY)).max()) > 0.05 or "iq" in vacuous or "lanczos_diag" in vacuous:
             if "iq" not in vacuous:
                 vacuous.append("iq")
         else:
-            bound = rel * scale + tol.TINY
+            bound = rel * scale + stall * b2 + tol.TINY
             got = iq.detach().to(F64).reshape(q_exp.shape)
             ratio, i = tol.worst_excess(got, q_exp, bound)
             info["iq_ratio"] = ratio
@@ -659,6 +732,9 @@ def check(case):
                 # [lambda_min, inf)), i.e. n * beta / mu_min in total.  Empirically (12 000 cases) err * beta_rel / (u n) <= 200.
                 kM, kP = info["kappa_M"], info["kappa_P"]
                 bound = C_SLQ * u * n * kM * math.sqrt(kP) * (1.0 + info["logmax"]) * info.get("amp", 1.0) + C_LOGDET * u * n * n * kP
+                # stalled CG step (see inv_quad above): the Jacobi matrix is cut where |r_k|_{P^-1}^2 < eps lmax(P)/lmin(A); the
+                # remainder of the Gauss rule for log is int_0^inf |e_k(t)|^2_{M+t} dt <= |r_k|^2 (1 + log(1 + kappa(M)))
+                bound += n * 4.0 * CG_EPS * info.get("p_max", 1.0) / info.get("lmin_leaf", lmin) * (1.0 + math.log1p(kM))
                 ksize = _tridiag_size(lines)
                 info["tsize"] = ksize if ksize is not None else -1
                 near = info.get("cut", 0.0) > 0.0 or (ksize is not None and ksize < info.get("n_leaf", n))
@@ -681,7 +757,7 @@ def check(case):
         else:
             # backward error of a factorization: A + E, |E| <= c n u |A|  =>  |d logdet| = |tr(A^{-1}E)| <= c n^2 u kappa;
             # plus the rounding of sum_i log(lambda_i): u * sum|log lambda_i| (times n for the accumulation)
-            bound = C_LOGDET * u * n * (n * kappa + sumlog) * (8.0 if has_mul else 1.0) + n * jit + tol.TINY
+            bound = C_LOGDET * u * n * (n * _kappa_struct(r, kappa) + sumlog) * (8.0 if has_mul else 1.0) + n * jit + tol.TINY
             if bound > 0.05 * (1.0 + float(ld_ref.abs().max())) or "lanczos_diag" in vacuous:
                 vacuous.append("ld")
             else:
@@ -692,11 +768,13 @@ def check(case):
     labels += ["vacuous:" + v for v in vacuous]
     override = head in OVERRIDE_HEADS or head == "KroneckerTri"
     nontrivial = (path == "slq" and expected_slq is not None and "slq" not in vacuous) or (override and (bool(batch) or (want_iq and not reduce_)) and not vacuous)
-    if head == "KroneckerAddedDiag" and cell.get("max_cholesky_size") == 0:
-        labels.append("kpad:above_threshold")
+    if head == "KroneckerAddedDiag":
+        dg = [a for a in r["args"] if gen.is_diag_instance(a)]
+        dk = dg[0]["op"] + ("(%s)" % ",".join(sorted({x["op"] for x in dg[0]["args"]})) if dg and dg[0]["op"] == "KroneckerDiag" else "") if dg else "?"
+        labels.append("kpad:%s:%s" % ("above_threshold" if cell.get("max_cholesky_size") == 0 else "below_threshold", dk))
     return {
         "nontrivial": bool(nontrivial),
-        "key": {"cp": cp, "entry": entry, "path": path, "rhs": case.get("rhs_kind"), "reduce": reduce_, "logdet": want_ld, "cell": cell, "batch": list(batch), "dt": dtname, "n": n},
+        "key": {"cp": cp, "entry": entry, "path": path, "rhs": case.get("rhs_kind"), "reduce": reduce_, "logdet": want_ld, "cell": cell, "batch": list(batch), "dt": dtname, "n": n, "values": sha(case)},
         "labels": labels,
         "sample": {"recipe": cp, "shape": list(A.shape), "entry": entry, "path": path, "rhs": L.shape_of(rhs_lit) if rhs_lit else None, "reduce": reduce_, "logdet": want_ld, "settings": cell},
         "info": {k: v for k, v in info.items() if isinstance(v, (int, float, str, bool))},
@@ -802,7 +880,14 @@ def _t_kpad_above(case):
     return _kpad_kron_const(eff) and case.get("settings", {}).get("max_cholesky_size") == 0 and _wants_logdet(case)
 
 
+def _t_cg_budget(case):
+    cell = case.get("settings", {})
+    n = refmodel.shape(case["recipe"])[-1]
+    return _iterative(case) and _wants_logdet(case) and cell.get("max_cg_iterations") == n and cell.get("max_lanczos_quadrature_iterations") == n and not cell.get("skip_logdet_forward")
+
+
 TRIGGERS = {
+    "cg_budget_equals_lanczos_budget_equals_n": _t_cg_budget,
     "zero_logdet": lambda case: case["recipe"]["op"] == "Zero",
     "unrequested_term_on_iterative_path": _t_placeholder,
     "cat_unrequested_term_cholesky_path": _t_cat_none,
